@@ -711,3 +711,205 @@ func runParallel(e *env, r *Rng, p int) ([]*parSession, error) {
 	}
 	return out, nil
 }
+
+// ---------------------------------------------------------------------------------------------
+// part (d): the write deadline.  (1) probes on the scripted socket: the deadline armed for every Write of the connection;
+// (2) a busy receiver: a small write, a pause d1, a burst larger than the kernel buffers while the receiver does not read for
+// d2 < W (the write time-out), d1 + d2 > W: the relay only has to stay blocked in the write for a while.
+
+type dlProbe struct {
+	StartMs    []int64 `json:"write_start_ms"`
+	DeadlineMs []int64 `json:"deadline_ms"` // relative to the first write
+	PausesMs   []int   `json:"pauses_ms"`
+}
+
+func runDeadlineProbe(e *env, r *Rng) (*dlProbe, error) {
+	rec := &evRec{}
+	setCurRec(rec)
+	defer setCurRec(nil)
+	sc := newSconn()
+	if _, err := e.newScriptedDownstreamWith(sc, rec, nil, clusterPlain); err != nil {
+		return nil, err
+	}
+	u := e.upPlain.next(stepLimit)
+	if u == nil {
+		return nil, fmt.Errorf("upstream server saw no connection (probe)")
+	}
+	defer u.c.Close()
+	sc.waitIdle(stepLimit)
+	p := &dlProbe{}
+	n := 2 + r.Intn(2)
+	for i := 0; i < n; i++ {
+		if i > 0 {
+			ms := 40 + r.Intn(50)
+			p.PausesMs = append(p.PausesMs, ms)
+			time.Sleep(time.Duration(ms) * time.Millisecond)
+		}
+		nw := sc.writeCalls()
+		u.c.Write(streamBytes(r, 1+r.Intn(40)))
+		settle(stepLimit, func() bool { return sc.writeCalls() > nw })
+	}
+	u.c.Close()
+	settle(stepLimit, func() bool { return sc.isClosed() })
+	wl := sc.writeLog()
+	if len(wl) == 0 {
+		return nil, fmt.Errorf("the probe saw no write")
+	}
+	t0 := wl[0].at
+	for _, w := range wl {
+		p.StartMs = append(p.StartMs, w.at.Sub(t0).Milliseconds())
+		if w.deadline.IsZero() {
+			p.DeadlineMs = append(p.DeadlineMs, -1)
+		} else {
+			p.DeadlineMs = append(p.DeadlineMs, w.deadline.Sub(t0).Milliseconds())
+		}
+	}
+	return p, nil
+}
+
+type stallSpec struct {
+	Dir     string `json:"direction"` // c2u: the upstream is the busy receiver; u2c: the client
+	WMs     int    `json:"write_timeout_ms"`
+	D1Ms    int    `json:"pause_before_burst_ms"`
+	D2Ms    int    `json:"receiver_busy_ms"`
+	BurstMB int    `json:"burst_mb"`
+}
+type stallResult struct {
+	Want          int    `json:"bytes_sent"`
+	Got           int    `json:"bytes_received"`
+	AtStallEnd    int    `json:"bytes_received_when_the_receiver_resumed"`
+	CleanEnd      bool   `json:"receiver_saw_clean_end"`
+	ContentOK     bool   `json:"received_is_prefix_of_sent"`
+	UpstreamClose string `json:"upstream_close_events"`
+	Problem       string `json:"problem,omitempty"`
+}
+
+func runStall(e *env, sp stallSpec) (*stallResult, error) {
+	res := &stallResult{}
+	rec := &evRec{}
+	setCurRec(rec)
+	defer setCurRec(nil)
+	raw, err := net.DialTimeout("tcp", e.lnPlain, 2*time.Second)
+	if err != nil {
+		return nil, err
+	}
+	defer raw.Close()
+	u := e.upPlain.next(stepLimit)
+	if u == nil {
+		return nil, fmt.Errorf("upstream server saw no connection (stall)")
+	}
+	defer u.c.Close()
+	first := []byte("hello")
+	burst := make([]byte, sp.BurstMB<<20)
+	for i := range burst {
+		burst[i] = byte(i*7 + i>>11)
+	}
+	want := append(append([]byte(nil), first...), burst...)
+	res.Want = len(want)
+	d1, d2 := time.Duration(sp.D1Ms)*time.Millisecond, time.Duration(sp.D2Ms)*time.Millisecond
+	var sender, receiver net.Conn
+	if sp.Dir == "c2u" {
+		sender, receiver = raw, u.c
+	} else {
+		sender, receiver = u.c, raw
+	}
+	if tc, ok := receiver.(*net.TCPConn); ok {
+		tc.SetReadBuffer(32 << 10) // a small receive window: the relay's write has to wait for the receiver
+	}
+	// the receiving end
+	var got []byte
+	var gmu sync.Mutex
+	count := func() int { gmu.Lock(); defer gmu.Unlock(); return len(got) }
+	recvDone := make(chan bool, 1)
+	var resume time.Time
+	var rmu sync.Mutex
+	if sp.Dir == "c2u" {
+		// u.reader is already reading: it is stalled through stallUntil
+	} else {
+		go func() {
+			buf := make([]byte, 64<<10)
+			for {
+				rmu.Lock()
+				st := resume
+				rmu.Unlock()
+				if d := time.Until(st); d > 0 {
+					time.Sleep(d)
+					continue
+				}
+				n, err := raw.Read(buf)
+				gmu.Lock()
+				got = append(got, buf[:n]...)
+				gmu.Unlock()
+				if err != nil {
+					recvDone <- err == io.EOF
+					return
+				}
+			}
+		}()
+	}
+	received := func() int {
+		if sp.Dir == "c2u" {
+			return u.count()
+		}
+		return count()
+	}
+	if _, err := sender.Write(first); err != nil {
+		return nil, err
+	}
+	settle(stepLimit, func() bool { return received() >= len(first) })
+	t0 := time.Now()
+	busyUntil := t0.Add(d1 + d2)
+	if sp.Dir == "c2u" {
+		u.stall(busyUntil)
+	} else {
+		rmu.Lock()
+		resume = busyUntil
+		rmu.Unlock()
+		// wake the reader out of a pending Read so that it notices the stall: it is blocked in Read with nothing to
+		// read, which is fine - it reads nothing until the burst arrives; the burst's first bytes may slip through
+	}
+	time.Sleep(time.Until(t0.Add(d1)))
+	sendDone := make(chan struct{})
+	go func() {
+		defer close(sendDone)
+		sender.Write(burst)
+		if tc, ok := sender.(*net.TCPConn); ok {
+			tc.CloseWrite()
+		} else {
+			sender.Close()
+		}
+	}()
+	time.Sleep(time.Until(busyUntil))
+	res.AtStallEnd = received()
+	// the receiver resumes; everything must arrive, then the end of the stream
+	limit := stepLimit + time.Duration(sp.WMs)*time.Millisecond
+	if sp.Dir == "c2u" {
+		if !u.waitDone(limit) {
+			res.Problem = "the receiver never saw the end of the stream"
+		}
+		u.mu.Lock()
+		res.CleanEnd = u.eof
+		res.Got = len(u.got)
+		res.ContentOK = isPrefix(u.got, want)
+		u.mu.Unlock()
+	} else {
+		select {
+		case clean := <-recvDone:
+			res.CleanEnd = clean
+		case <-time.After(limit):
+			res.Problem = "the receiver never saw the end of the stream"
+		}
+		gmu.Lock()
+		res.Got = len(got)
+		res.ContentOK = isPrefix(got, want)
+		gmu.Unlock()
+	}
+	raw.Close()
+	u.c.Close()
+	select {
+	case <-sendDone:
+	case <-time.After(limit):
+	}
+	res.UpstreamClose = strings.Join(rec.of("U"), ",")
+	return res, nil
+}
